@@ -152,3 +152,8 @@ func (s *Server) VerifHandleRequest(pctx *proxy.DNSContext) (err error) {
 func (s *Server) VerifSetUpstream(u upstream.Upstream) {
 	s.conf.UpstreamConfig.Upstreams = []upstream.Upstream{u}
 }
+
+// VerifProxyAddr returns the bound address of a started server.
+func (s *Server) VerifProxyAddr(proto proxy.Proto) net.Addr {
+	return s.dnsProxy.Addr(proto)
+}
